@@ -439,6 +439,18 @@ fn mode_c10(s: &mut Session, re: &Regex, p: &str, t: &str, limit: usize) {
             }
         }
     }
+    if all_ok {
+        // a limit at or above the number of pieces changes nothing, whatever its width
+        for big in [1usize << 31, 1usize << 32, (1usize << 32) + 1, (1usize << 32) + 2, 1usize << 63, usize::MAX - 1, usize::MAX] {
+            let got = catch_unwind(AssertUnwindSafe(|| drain_split(&mut re.splitn(t, big), t, t.len() + 4)));
+            s.count("splitn_big_limit_cases");
+            match got {
+                Ok(g) if g == pieces => {}
+                Ok(g) => viol(s, "C10", "splitn", p, t, format!("n={} got={:?} want (= split) {:?}", big, g, pieces)),
+                Err(_) => viol(s, "C10", "panic", p, t, format!("splitn n={} panicked", big)),
+            }
+        }
+    }
     let show = |v: &Vec<Result<(usize, usize), String>>| show_span_items(v);
     let table = table_for(re, t);
     s.line(&format!("split\tT:{}\t{}\t{}", table, hex(t), limit), &show(&pieces));
@@ -475,18 +487,19 @@ fn mode_c11(s: &mut Session, re: &Regex, p: &str, t: &str, limit: usize, names: 
         ("tpl", "${n}-$m"),
         ("tpl", "$1a"),
         ("tpl", "é$0é"),
+        ("tpl", "$é|$0"),
         ("noexp", "x"),
         ("noexp", "$1"),
         ("closure", "x"),
         ("closure", "$1"),
         ("ident", ""),
     ];
-    for n in 0..4usize {
+    for n in [0usize, 1, 2, 3, 1 << 32, isize::MAX as usize, usize::MAX] {
         for (kind, rep) in &templates {
             if n >= 2 && !matches!((*kind, *rep), ("tpl", "x") | ("tpl", "<$0>") | ("ident", "") | ("noexp", "x")) {
                 continue;
             }
-            if n == 1 && matches!((*kind, *rep), ("tpl", "") | ("tpl", "$$") | ("tpl", "$1a") | ("closure", "$1") | ("noexp", "$1") | ("tpl", "é$0é")) {
+            if n == 1 && matches!((*kind, *rep), ("tpl", "") | ("tpl", "$$") | ("tpl", "$1a") | ("closure", "$1") | ("noexp", "$1") | ("tpl", "é$0é") | ("tpl", "$é|$0")) {
                 continue;
             }
             let r = catch_unwind(AssertUnwindSafe(|| match *kind {
